@@ -282,7 +282,8 @@ class CookieHandler:
                 _content = self._ver_dec_content(_cookie["value"].split("|"))
                 if _content:
                     payload, timestamp = _content
-                    value, typ = payload.split("::")
+                    # the type is the last component: the value may itself contain colons
+                    value, typ = payload.rsplit("::", 1)
                     res.append({"value": value, "type": typ, "timestamp": timestamp})
                 else:
                     LOGGER.debug(f"Could not verify '{name}' cookie")
